@@ -1,7 +1,10 @@
 pub mod c06;
+pub mod c30;
+pub mod c31;
+pub mod c33;
 
 use crate::kit::core::Scenario;
 
 pub fn registry() -> Vec<Box<dyn Scenario>> {
-    vec![Box::new(c06::C06)]
+    vec![Box::new(c06::C06), Box::new(c30::C30), Box::new(c31::C31), Box::new(c33::C33)]
 }
